@@ -104,19 +104,19 @@ def cases(tier, seed):
             o.append(rng.choice(["--neutraln", "--neutralc"]))
         return o
 
-    for rep in range(1 if tier == "quick" else 10):
+    for rep in range(1 if tier == "quick" else 40):
         for spec in workload.lattice_cases(seed * 41 + rep, opts_fn=opts, p={"hydrogens": ["none", "all", "some", "side"]}):
             spec["kind"] = "run"
             out.append(spec)
-    n = 200 if tier == "quick" else 7000
+    n = 200 if tier == "quick" else 28000
     for spec in workload.standard_cases(tier, seed, n, n, opts_fn=opts, frag_share=0.35,
-                                        p={"variant_prob": 0.2, "na_prob": 0.15, "waters": [0, 2, 5, 8],
+                                        p={"icode_prob": 0.2, "variant_prob": 0.2, "na_prob": 0.15, "waters": [0, 2, 5, 8],
                                            "damage_prob": 0.25, "dense_prob": 0.8, "crowd_prob": 0.2,
                                            "hydrogens": ["none", "none", "all", "some", "side"]}):
         spec["kind"] = "run"
         spec["extra_atoms"] = spec["seed"] % 5 == 0
         out.append(spec)
-    nt = 36 if tier == "quick" else 1200
+    nt = 36 if tier == "quick" else 5000
     for i in range(nt):
         out.append({"kind": "titr", "w": "synth", "seed": seed * 3001 + i, "ff": common.FFS[i % 6],
                     "p": {"maxlen": 6, "na": False, "waters": [0, 2], "variant_prob": 0.0, "pool": [
